@@ -14,7 +14,15 @@ pub struct C05;
 
 fn one_case(sh: &mut Shard, tape: &[u32], cfg: &GenCfg) -> Result<(), Violation> {
     let prog = Gen::new(tape, cfg).control_program();
-    let r = render(&prog, &Layout::plain());
+    // a quarter of the programs put neighbouring statements and loop lines on one line (FOR A = 1 TO 3: FOR B = 1 TO 3: ...)
+    let mut lay = Layout::plain();
+    let salt = tape.iter().fold(0u64, |a, c| a.wrapping_mul(31).wrapping_add(*c as u64));
+    if salt % 4 == 0 {
+        lay.colons = 600;
+        lay.seed = salt;
+        sh.class("layout:colon-joined");
+    }
+    let r = render(&prog, &lay);
     sh.eval();
     sh.journal(&format!("[refsem] {}", r.text));
     let res = match refsem::run(&prog, 100_000) {
@@ -39,7 +47,7 @@ impl Prop for C05 {
         "C05"
     }
     fn rule(&self) -> &'static str {
-        "Trace programs (every statement prints a unique token, so stdout is the executed path): forward and counter-guarded backward GOTOs, GOTO out of loops at depth 1-2 to a label inside the enclosing loop body or at module level (counters printed afterwards), GOSUB chains with nested GOSUBs, stray RETURN / RESUME, ON ERROR GOTO h / GOTO 0 / switching handlers in every order, failing statements of five kinds (division by zero, overflow, subscript, illegal function call, out of DATA) as first/middle/last statement of a plain block, IF, FOR (with and without negative STEP), WHILE, DO, SELECT, in GOSUB routines, handlers that print ERR and RESUME NEXT / repair + RESUME / RESUME label; module-level sentinels printed at the end. Oracle: the reference control machine; stdout, error code and error row must agree. Non-trivial = a handled error followed by more statements, or a jump out of a loop after which a loop iterated again, or GOSUB depth >= 2; distinct by program text."
+        "Trace programs (every statement prints a unique token, so stdout is the executed path): forward and counter-guarded backward GOTOs, GOTO out of loops at depth 1-2 to a label inside the enclosing loop body or at module level (counters printed afterwards), GOSUB chains with nested GOSUBs, stray RETURN / RESUME, ON ERROR GOTO h / GOTO 0 / switching handlers in every order, failing statements of five kinds (division by zero, overflow, subscript, illegal function call, out of DATA) as first/middle/last statement of a plain block, IF, FOR (with and without negative STEP), WHILE, DO, SELECT, in GOSUB routines, handlers that print ERR and RESUME NEXT / repair + RESUME / RESUME label / RESUME twice then RESUME NEXT; block statements whose header fails (IF / ELSEIF condition, CASE value, DO UNTIL condition) under RESUME and RESUME label; a quarter of the programs with statements and loop lines joined by colons; module-level sentinels printed at the end. Oracle: the reference control machine; stdout, error code and error row must agree. Non-trivial = a handled error followed by more statements, or a jump out of a loop after which a loop iterated again, or GOSUB depth >= 2; distinct by program text."
     }
     fn assumptions(&self) -> Vec<&'static str> {
         vec![
